@@ -279,7 +279,7 @@ func (w *ethWorld) apply(op kernel.Op) {
 		}
 	case "probe":
 		w.opProbe(op)
-	case "write":
+	case "write", "wwrite":
 		w.opWrite(op)
 	case "recv":
 		w.opRecv(op)
@@ -477,6 +477,25 @@ func (w *ethWorld) opWrite(op kernel.Op) {
 	r := rand.New(rand.NewSource(op.Arg(1)))
 	for i := int64(0); i < op.Arg(0); i++ {
 		seq := stubSeq(len(w.packets), w.cfg["special_seq"], r.Int63n(1<<20))
+		var prev []uint64
+		used := map[uint64]bool{}
+		for _, q := range w.packets {
+			prev = append(prev, q.seq)
+			used[q.seq] = true
+		}
+		if x := r.Int63n(1 << 20); op.K == "wwrite" && i == 1 || w.cfg["special_seq"] != 0 && x%5 == 0 {
+			// a sequence one "window" after an earlier one of this path
+			if op.K == "wwrite" {
+				prev, x = prev[len(prev)-1:], 64*op.Arg(2)
+			}
+			if ws := windowSeq(prev, used, x); ws != 0 {
+				seq = ws
+				w.rec.Probe("seq.window")
+			}
+		}
+		for used[seq] {
+			seq++
+		}
 		checkPacketPaths(w.rec, w.name, "host", seq)
 		pkt := packettypes.Packet{SrcChain: w.name, DstChain: "host", Sequence: seq, Sender: "0xabc", CallData: []byte{byte(r.Intn(255)), 1}}
 		bz, err := pkt.ABIPack()
